@@ -197,7 +197,7 @@ func checkC11(c *hx.Checker) {
 			mk([]int{2, 2}, in[:4], out[:4], "model", "2x2")
 			mk([]int{3}, in[len(in)-3:], out[len(out)-3:], "model", "tail3")
 			// larger tensors with odd element counts (block-splitting kernels): the alphabet repeated cyclically
-			for _, n := range []int{4099, 32771, 65539} {
+			for _, n := range []int{4099, 32771, 65539, 4096, 65536} {
 				iv, ov := make([]uint64, n), make([]uint64, n)
 				for k := range iv {
 					iv[k], ov[k] = in[(k*7+1)%len(in)], out[(k*7+1)%len(in)]
